@@ -2,6 +2,7 @@ import Model
 import Spec
 import Gen
 import Proofs.Client
+import Proofs.ConnWrite
 /-!
   C12 — client handshake: bounded retransmission, definite outcome, stable afterwards.
   `Model.Client.HS`: the handshake goroutine (write CER; select {errc, RetransmitInterval};
@@ -155,8 +156,19 @@ theorem C12_cea_accept (appOK : Nat → Nat → Bool) (as : List AVP) (m : Meta)
             cases h
             refine ⟨by omega, rfl, by simp_all, rfl, by simp_all, by rw [hp]⟩
 
+/-- Several handshakes through one `sm.Client` (concurrent dials, or a dial while other
+    connections live) share the state machine's CEA handler; with the handler finding the waiting
+    handshake in the context of the connection the CEA arrived on (`Gen.handshakeAnswerHandlers`),
+    each handshake is credited exactly the CEAs of its own connection, in every interleaving - so
+    the single-connection theorems above hold for each of them. -/
+theorem C12_answers_by_connection (es : List ShareEv) (s : ShareState) (k : Nat) (hk : k < s.acks.length) :
+    (s.run true es).acks.getD k 0 = s.acks.getD k 0 + answersOn k es :=
+  (share_byConn es s k hk).1
+
 /-- structural facts regenerated from client.go / cea.go -/
-theorem C12_gen : Gen.capErrc = 1 ∧ Gen.ceaHandlerOnce = true ∧
+theorem C12_gen : Gen.handshakeAnswerHandlers =
+      ["\"CEA\"=handleCEA(cli.Handler,nil)", "\"DWA\"=handshakeOK(handleDWA(cli.Handler,nil))"] ∧
+    Gen.capErrc = 1 ∧ Gen.ceaHandlerOnce = true ∧
     Gen.handshakeMakeCER = ([], ["cli.makeCER(hostAddresses)"]) ∧ Gen.handshakeWrites = ["m.WriteTo(c)"] ∧
     Gen.handshakeCloses = (2, 2) ∧ Gen.handshakeLoopCond = "(i<((int(cli.MaxRetransmits)+1)))" := by decide
 
